@@ -290,7 +290,22 @@ def gen_typed(rng, fw, maxlen, whitelist):
         inputs.append(gen_tensor(rng, shape=inputs[0]["shape"] if rng.random() < 0.5 else None, garbage=garbage))
     env = make_env(inputs)
     prog = []
-    want = rng.randint(1, maxlen)
+    if rng.random() < 0.08:
+        # a tensor next to a view of itself with other strides (its own transpose; needs equal extents on the two axes): stacked /
+        # concatenated / added, every operand keeps ITS values and ITS validity
+        n = rng.choice([2, 3, 4])
+        inputs[0] = gen_tensor(rng, shape=[n, n] + ([rng.choice([1, 2, 3])] if rng.random() < 0.4 else []), garbage=garbage)
+        env = make_env(inputs)
+        for ins in (["transpose", 0, 0, 1], rng.choice([["stack", [0, len(env)], rng.randrange(0, 3)], ["stack", [len(env), 0], 0],
+                                                        ["cat", [["reg", 0], ["reg", len(env)]], rng.randrange(0, 2)],
+                                                        ["arith", rng.choice(["add", "mul", "sub"]), 0, ["reg", len(env)]]])):
+            try:
+                outs = ref_exec(fw, ins, env)
+            except RefError:
+                break
+            prog.append(ins)
+            env.extend(outs)
+    want = rng.randint(max(1, len(prog)), max(maxlen, len(prog)))
     tries = 0
     while len(prog) < want and tries < 12 * maxlen:
         tries += 1
